@@ -12,16 +12,17 @@
 (* whether the design-level results obtained on Reconciler.tla (R1) are    *)
 (* about this code at all.  A log that is not accepted is reported as      *)
 (* model drift, never as a violation of a property.                        *)
-(* Scope: single (non-batch) operations; time is abstract (Tick is silent   *)
-(* and unconstrained by the logged clock).                                 *)
+(* Scope: single and batch operations, refresh loop, pruning (a no-op for   *)
+(* the table); time is abstract (Tick is silent and unconstrained by the   *)
+(* logged clock).                                                          *)
 (***************************************************************************)
 EXTENDS Reconciler, Json, IOUtils
 
 Trace  == ndJsonDeserialize(IOEnv.VERIF_TRACE)
 Bounds == ndJsonDeserialize(IOEnv.VERIF_BOUNDS)
 
-VARIABLES tr, l, rs
-tvars == << tr, l, rs, vars >>
+VARIABLES tr, l, rs, bm      \* log, position, and the configuration of the log: round size, batch mode
+tvars == << tr, l, rs, bm, vars >>
 
 Range(s) == { s[i] : i \in 1..Len(s) }
 KindOf(st) == CASE st = "P" -> "Pending" [] st = "D" -> "Done" [] st = "E" -> "Error" [] OTHER -> "Refreshing"
@@ -32,7 +33,7 @@ Max2(a, b) == IF a >= b THEN a ELSE b
 TInit ==
     /\ Init
     /\ \E t \in 1..Len(Bounds) : tr = t /\ l = Bounds[t].s /\ TLCSet(t, Bounds[t].s)
-    /\ rs = 1
+    /\ rs = 1 /\ bm = FALSE
 
 \* ------------------------------------------------------------ logged steps
 \* UserDelete(k) \cdot UserUpsertV(k, v), written out (TLC has no action composition)
@@ -63,13 +64,16 @@ RecCommit(e) ==
 
 Call(e) ==
     LET isdel == e.kind = "delete" IN
-    \/ /\ e.kind # "prune" /\ phase = "changes" /\ Pending(snap, cur) # {}
+    \/ /\ e.kind # "prune" /\ e.batch
+       /\ isdel \/ snap.obj[e.k].ver = e.ver
+       /\ BatchOp(<< e.k, e.rev, isdel >>, ~e.fail)
+    \/ /\ e.kind # "prune" /\ ~e.batch /\ ~bm /\ phase = "changes" /\ Pending(snap, cur) # {}
        /\ NextChange = << e.k, e.rev, isdel >>
        /\ isdel \/ snap.obj[e.k].ver = e.ver
        /\ ChangeOp(rs, ~e.fail)
     \* (Prune does not touch the table)
     \/ e.kind = "prune" /\ UNCHANGED vars
-    \/ /\ e.kind # "prune" /\ phase = "retries" /\ e.k \in DOMAIN retry
+    \/ /\ e.kind # "prune" /\ ~e.batch /\ phase = "retries" /\ e.k \in DOMAIN retry
        /\ retry[e.k].isdel = isdel /\ retry[e.k].rev = e.rev
        /\ isdel \/ retry[e.k].ver = e.ver
        /\ RetryOp(rs, e.k, ~e.fail)
@@ -89,12 +93,12 @@ WaitRet(e) ==
 Logged ==
     /\ l <= Bounds[tr].e
     /\ LET e == Trace[l] IN
-       /\ CASE e.op = "config"  -> rs' = e.round /\ UNCHANGED vars
-            [] e.op = "commit"  -> rs' = rs /\ (IF e.by = "user" THEN UserCommit(e) ELSE RecCommit(e))
-            [] e.op = "call"    -> rs' = rs /\ Call(e)
-            [] e.op = "quiesce" -> rs' = rs /\ Quiesce(e)
-            [] e.op = "waitret" -> rs' = rs /\ WaitRet(e)
-            [] OTHER            -> rs' = rs /\ UNCHANGED vars
+       /\ CASE e.op = "config"  -> rs' = e.round /\ bm' = e.batch /\ UNCHANGED vars
+            [] e.op = "commit"  -> UNCHANGED << rs, bm >> /\ (IF e.by = "user" THEN UserCommit(e) ELSE RecCommit(e))
+            [] e.op = "call"    -> UNCHANGED << rs, bm >> /\ Call(e)
+            [] e.op = "quiesce" -> UNCHANGED << rs, bm >> /\ Quiesce(e)
+            [] e.op = "waitret" -> UNCHANGED << rs, bm >> /\ WaitRet(e)
+            [] OTHER            -> UNCHANGED << rs, bm, vars >>
     /\ l' = l + 1 /\ tr' = tr
     /\ TLCSet(tr, Max2(TLCGet(tr), l + 1))
 
@@ -107,20 +111,21 @@ Silent ==
     /\ l <= Bounds[tr].e
     /\ \/ RoundStart
        \/ ChangesEnd(rs)
-       \/ ChangeSkip(rs)
+       \/ ~bm /\ ChangeSkip(rs)
+       \/ bm /\ (BatchCollect(rs) \/ BatchEnd)
        \* (time is abstract here: whether a queued retry is due at the moment of a round is decided by the real clock,
        \* which the coarse Tick of the model does not follow; the pacing itself is judged by RecTrace.tla)
        \/ RetriesEndAny
        \* a status commit that wrote nothing (no results, or every result stale) leaves no commit in the log
        \/ (\E ord \in Orders(DOMAIN results) : CommitStatusO(ord)) /\ obj' = obj
        \/ Tick
-    /\ UNCHANGED << tr, l, rs >>
+    /\ UNCHANGED << tr, l, rs, bm >>
 
 TDone ==
     /\ l = Bounds[tr].e + 1
     /\ PrintT(<< "VERDICT", Bounds[tr].id, 0, "ok", "" >>)
     /\ l' = l + 1
-    /\ UNCHANGED << tr, rs, vars >>
+    /\ UNCHANGED << tr, rs, bm, vars >>
 
 TNext == Logged \/ Silent \/ TDone
 TSpec == TInit /\ [][TNext]_tvars
